@@ -252,6 +252,32 @@ func checkRecoverRange(c *core.Ctx, fn *ssa.Function) {
 	first, err1 := eng.ExtractExpr(arg, func(v ssa.Value) bool { return v == ssa.Value(phi) })
 	initE, err2 := eng.ExtractExpr(init, isS)
 	if err1 != nil || err2 != nil {
+		// a start height taken from another store's progress marker is a wrong range, not an unknown shape
+		wrongSource := ""
+		var walk func(v ssa.Value, d int)
+		walk = func(v ssa.Value, d int) {
+			if d > 6 || v == nil {
+				return
+			}
+			switch x := v.(type) {
+			case *ssa.BinOp:
+				walk(x.X, d+1)
+				walk(x.Y, d+1)
+			case *ssa.Convert:
+				walk(x.X, d+1)
+			case *ssa.Extract:
+				if cl, ok := x.Tuple.(*ssa.Call); ok && !isS(x) {
+					if o := ir.CalleeObj(cl); o != nil && strings.HasPrefix(o.Name(), "GetCurrentBlock") {
+						wrongSource = ir.ObjName(o)
+					}
+				}
+			}
+		}
+		walk(init, 0)
+		if wrongSource != "" {
+			c.Violate("C12.replay-range", fn, "heights replayed = (stateHeight, blockHeight]", c.P.Rel(gbh[0].Pos()), "the replay starts from "+wrongSource+", not from the state store's committed height")
+			return
+		}
 		c.Broken("C12.replay-range", fn, "range trees", c.P.Rel(gbh[0].Pos()), sprintf("%v %v", err1, err2))
 		return
 	}
